@@ -53,7 +53,8 @@ PURE_METHODS = {
     list: {"append", "extend", "insert", "pop", "index", "count", "copy", "reverse", "sort", "remove", "clear"},
     dict: {"get", "keys", "values", "items", "copy", "update", "pop", "setdefault"},
     tuple: {"index", "count"},
-    set: {"add", "discard", "union", "copy"},
+    set: {"add", "discard", "union", "copy", "intersection", "difference", "symmetric_difference", "issubset", "issuperset", "isdisjoint", "remove", "update", "clear"},
+    frozenset: {"union", "copy", "intersection", "difference", "symmetric_difference", "issubset", "issuperset", "isdisjoint"},
 }
 import struct as _struct
 import base64 as _b64
